@@ -125,6 +125,11 @@ func relevant(p policy, f feats) bool {
 	if p.cmt == "all" && !f.ref {
 		return false
 	}
+	// comments sit between tokens: they meet a string / name only at its delimiters, so they are combined
+	// with one literal and one hex spelling and with raw / escaped names, not with every internal spelling
+	if p.cmt != "off" && ((p.str != "lit" && p.str != "hexU") || p.name == "escl") {
+		return false
+	}
 	if p.eol != "LF" && !(p.ws == "nl" || p.cmt != "off" || (f.str && (p.str == "cont" || p.str == "raweol"))) {
 		return false
 	}
@@ -567,12 +572,12 @@ func progSpace(e *harness.Env) {
 				}
 				_, _, f := buildProgram(ops, variant)
 				wss := wsOpts
-				if l == 3 {
-					wss = []string{"min", "mix"}
-				}
 				base := fmt.Sprintf("space=prog ops=%s variant=%d opquote=%s opdigit=%s kwtop=n kwin=%s", strings.Join(lbl, ","), variant, b2s(quote), b2s(digit), b2s(f.kwIn))
 				for _, p := range allPolicies(f, wss, cmts, eolOpts, strs, names) {
-					if l == 3 && (p.eol == "CRLF" || (p.str != "lit" && p.str != "hexodd") || p.name != "raw") {
+					if l == 3 && !((p.ws == "min" && p.cmt == "off") || (p.ws == "mix" && p.cmt == "off") || (p.ws == "sp" && p.cmt == "sep" && p.eol == "CR")) {
+						continue // length 3: three whitespace/comment policies
+					}
+					if l == 3 && ((p.str != "lit" && p.str != "hexodd") || p.name != "raw") {
 						continue
 					}
 					d := base + " " + p.desc() + " parser=cs"
